@@ -158,6 +158,82 @@ theorem deadline_not_preserved_prefix (how : String) :
   obtain ⟨_, _, h2⟩ := unknown_nonretryable_gen known mappedPreFix how (.reg deadlineEntry) hno
   exact h2
 
+/-! ## wrapped errors: `ErrorIsRetryable` looks through wrappers (`errors.Is`), the caller sees only the text -/
+
+/-- `ErrorIsRetryable(x)` holds exactly when `errors.Is(x, e)` for some retryable known sentinel `e`. -/
+theorem retryable_iff_is (kn : List Entry) (x : GoErr) :
+    retryable kn x = true ↔ ∃ e ∈ kn, e.retryable = true ∧ x.is e = true := by
+  induction x with
+  | reg e' =>
+    simp only [retryable, GoErr.is, Bool.and_eq_true, List.contains_iff_mem, decide_eq_true_eq]
+    constructor
+    · rintro ⟨hm, hr⟩; exact ⟨e', hm, hr, rfl⟩
+    · rintro ⟨e, hm, hr, rfl⟩; exact ⟨hm, hr⟩
+  | «opaque» m => simp [retryable, GoErr.is]
+  | wrap m inner ih => simpa only [retryable, GoErr.is] using ih
+  | twirp c m => simp [retryable, GoErr.is]
+
+/-- an error that `Is` the sentinel `e` is classified like `e` itself, however deeply it is wrapped -/
+theorem retryable_of_is (kn : List Entry) (x : GoErr) (e : Entry) (h : x.is e = true) :
+    retryable kn x = retryable kn (.reg e) := by
+  induction x with
+  | reg e' => simp only [GoErr.is, decide_eq_true_eq] at h; subst h; rfl
+  | «opaque» m => simp [GoErr.is] at h
+  | wrap m inner ih => simp only [GoErr.is] at h; simp only [retryable]; exact ih h
+  | twirp c m => simp [GoErr.is] at h
+
+/-- the caller's value depends on the message alone: whatever carries the message of a mapped error `e` arrives as `e` -/
+theorem identity_by_text_gen (kn mp : List Entry) (hnd : (mp.map Entry.msg).Nodup) (how : String)
+    (x : GoErr) (e : Entry) (he : e ∈ mp) (hm : x.msg = e.msg) : acrossRPC kn mp how x = .reg e := by
+  unfold acrossRPC
+  have h := wrapErr_msg kn how x
+  generalize wrapErr kn how x = w at h
+  obtain ⟨c, m⟩ := w
+  simp only at h
+  rw [h, hm]
+  exact mapper_reg mp hnd e he c
+
+/-- **C14 (wrapped, same text).** An error that wraps a mapped sentinel `e` (`errors.Is(x, e)`) without changing
+its text is recognised by the caller as `e`, and is classified retryable by the caller exactly when it was at the
+origin — this is where the origin's `errors.Is` (not `==`) is needed. -/
+theorem text_preserving_wrapper_preserved (how : String) (x : GoErr) (e : Entry) (he : e ∈ mapped)
+    (his : x.is e = true) (hm : x.msg = e.msg) :
+    acrossRPC known mapped how x = .reg e ∧
+    retryable known (acrossRPC known mapped how x) = retryable known x := by
+  have h := identity_by_text_gen known mapped msgs_distinct how x e he hm
+  exact ⟨h, by rw [h, retryable_of_is known x e his]⟩
+
+theorem sameText_is (e : Entry) (n : Nat) : (sameText e n).is e = true := by
+  induction n with
+  | zero => simp [sameText, GoErr.is]
+  | succ n ih => simpa only [sameText, GoErr.is] using ih
+
+theorem sameText_msg (e : Entry) (n : Nat) : (sameText e n).msg = e.msg := by
+  cases n <;> rfl
+
+/-- … for every nesting depth of `fmt.Errorf("%w", ·)` / `errors.Join(·)` / text-preserving wrapper types, every
+mapped error (registry + deadline) and every handler kind; with the origin's classification spelled out. -/
+theorem sameText_preserved (how : String) (e : Entry) (he : e ∈ mapped) (n : Nat) :
+    acrossRPC known mapped how (sameText e n) = .reg e ∧
+    retryable known (sameText e n) = e.retryable ∧
+    retryable known (acrossRPC known mapped how (sameText e n)) = retryable known (sameText e n) := by
+  obtain ⟨h1, h2⟩ := text_preserving_wrapper_preserved how (sameText e n) e he (sameText_is e n) (sameText_msg e n)
+  refine ⟨h1, ?_, h2⟩
+  rw [retryable_of_is known _ e (sameText_is e n)]
+  have hc : known.contains e = true := List.contains_iff_mem.mpr (mapped_known e he)
+  simp only [retryable, hc, Bool.true_and]
+
+/-- REGRESSION WITNESS (`err == e` instead of `errors.Is(err, e)` in ErrorIsRetryable): a retryable mapped error
+inside a text-preserving wrapper is classified NON-retryable at the origin, while the caller — whatever code went
+on the wire — maps the text back to the sentinel and classifies it retryable: origin and caller disagree. -/
+theorem unwrap_is_needed (e : Entry) (he : e ∈ mapped) (hr : e.retryable = true) (n : Nat) (code : String) :
+    retryableEq known (sameText e (n + 1)) = false ∧
+    retryableEq known (mapper mapped ⟨code, (sameText e (n + 1)).msg⟩) = true ∧
+    retryable known (mapper mapped ⟨code, (sameText e (n + 1)).msg⟩) = true := by
+  have hc : known.contains e = true := List.contains_iff_mem.mpr (mapped_known e he)
+  rw [sameText_msg, mapper_reg mapped msgs_distinct e he code]
+  exact ⟨rfl, by simp only [retryableEq, hc, hr, Bool.and_self], by simp only [retryable, hc, hr, Bool.and_self]⟩
+
 /-! ## non-vacuity (robust to additions to the registry) -/
 
 example : ∃ e ∈ registry, e.retryable = true := by decide
@@ -167,5 +243,16 @@ example : ∃ e, e ∈ mapped ∧ retryable known (.reg e) = true ∧ acrossRPC 
   obtain ⟨e, he, hr⟩ : ∃ e ∈ mapped, e.retryable = true := by decide
   have hc : known.contains e = true := List.contains_iff_mem.mpr (mapped_known e he)
   exact ⟨e, he, by simp only [retryable, hc, hr, Bool.and_self], identity_preserved _ e he⟩
+
+-- a retryable and a non-retryable mapped error inside a two-level text-preserving wrapper
+example : ∃ e ∈ mapped, e.retryable = true ∧ (sameText e 2).is e = true ∧ (sameText e 2).msg = e.msg ∧ sameText e 2 ≠ .reg e := by
+  obtain ⟨e, he, hr⟩ : ∃ e ∈ mapped, e.retryable = true := by decide
+  exact ⟨e, he, hr, sameText_is e 2, sameText_msg e 2, by simp [sameText]⟩
+example : ∃ e ∈ mapped, e.retryable = false ∧ retryable known (sameText e 1) = false := by
+  obtain ⟨e, he, hr⟩ : ∃ e ∈ mapped, e.retryable = false := by decide
+  exact ⟨e, he, hr, by rw [(sameText_preserved "WrapError" e he 1).2.1]; exact hr⟩
+example : ∃ x : GoErr, retryable known x = true ∧ ∀ e, x ≠ .reg e := by
+  obtain ⟨e, he, hr⟩ : ∃ e ∈ mapped, e.retryable = true := by decide
+  exact ⟨sameText e 1, by rw [(sameText_preserved "raw" e he 1).2.1]; exact hr, by intro e' h; cases h⟩
 
 end Specter.C14
